@@ -272,8 +272,14 @@ pub fn run_c08(ctx: &Ctx, st: &mut Local) {
                 }
             }
         }
+        // streams of more than 30000 tokens' worth of input (the > 65535-symbol blocks): single deviations only in
+        // the quick tier, one such stream would otherwise occupy a worker for a minute
+        let big = !pairs_all && c.plain.as_ref().map_or(d.len() > 30_000, |p| p.len() > 60_000);
         // (iii) pairs of deviations
         for a in 0..menus.len() {
+            if big {
+                break;
+            }
             for b in a + 1..menus.len() {
                 let important = |x: usize| x == 4 || x == 9 || x == 12 || x == 3 || x == 10 || x == 6;
                 if !pairs_all && !(important(a) && important(b)) {
@@ -290,6 +296,9 @@ pub fn run_c08(ctx: &Ctx, st: &mut Local) {
         }
         // (iv) full product hash x add policy x matching
         for h in hashes {
+            if big {
+                break;
+            }
             let v1 = apply(&base, h);
             for m in &matchings {
                 let v2 = apply(&v1, m);
@@ -329,7 +338,7 @@ pub fn run_c08(ctx: &Ctx, st: &mut Local) {
         ]
     };
     e5_devspace(ctx, "E5xE13", &specs, st, &mut f);
-    e2_crossblock(ctx, "E2sxE13", st, &mut f);
+    e2_crossblock_sel(ctx, "E2sxE13", st, &mut f, true);
     {
         let dists: Vec<u16> = if ctx.quick() { vec![1, 4, 300, 32768] } else { vec![1, 2, 4, 5, 300, 4096, 4097, 32506, 32507, 32767, 32768] };
         e4_single(ctx, "E4sxE13", &[3, 4, 258], &dists, st, &mut f);
